@@ -108,6 +108,10 @@ class SystemWZ3(Inference):
             if contra_solver.check() == unsat:
                 return True
 
+            if len(self.epistemic_state["partition"]) < 2:
+                # no finite layer: all feasible worlds are equally plausible
+                return False
+
             result = self._rec_inference(
                 opt, len(self.epistemic_state["partition"]) - 2, query_z3
             )
